@@ -71,6 +71,18 @@ def cases(tier, seed):
                            "live": live}
 
 
+    # a long-lived Crop object that looked at the crop while it was still a
+    # smaller sweep; the sow script was then run again with the full sweep
+    # and everything grown: the reap through that object delivers all of it
+    for scn in scns:
+        if scn.startswith("samp"):
+            continue
+        for cu in (None, True, False):
+            yield {"scn": scn, "clean_up": cu, "allow_incomplete": False,
+                   "wait": False, "state": "complete", "failure": "none",
+                   "live": True, "stale": True}
+
+
 def worker_init():
     import xyzpy  # noqa
 
@@ -101,7 +113,18 @@ class Env:
         self.earlier_rows = []
         if sc.kind == "sampler" and sc.earlier:
             self.earlier_rows = sc.load_data(self.d)
-        crop = sc.new_crop(self.d, far=far)
+        self.live = None
+        if case.get("stale"):
+            crop0 = sc.new_crop(self.d, far=far)
+            crop0.sow_combos({"a": sc.combos["a"][:-1], "b": sc.combos["b"]},
+                             verbosity=0)
+            self.live = sc.fresh_crop(self.d)
+            self.live.is_ready_to_reap()
+            if self.live.num_batches != crop0.num_batches:
+                raise core.HarnessError("stale scenario: reload differs")
+            crop = sc.new_crop(self.d, autoload=False, far=far)
+        else:
+            crop = sc.new_crop(self.d, far=far)
         sc.sow(crop)
         self.B = crop.num_batches
         ids = list(range(1, self.B + 1))
@@ -109,7 +132,6 @@ class Env:
             ids = ids[:-1]
         crop.grow(ids, verbosity=0)
         self.base = fsseam.snapshot(self.d)
-        self.live = None
 
     def opts(self, overwrite=None):
         c = self.case
